@@ -1,5 +1,6 @@
 import AslModel.Lemmas.PFile
 import AslModel.Lemmas.CodeFile
+import AslModel.Lemmas.CodeFileRefine
 /-!
 # C04 — the code file contains exactly the program's bytes at the program's addresses
 
@@ -81,11 +82,38 @@ theorem C04_file_wellformed (c : Ctx) (pc0 : Nat) (evs : List Ev) (entry : Optio
     | none => simp at hi
     | some a => simp at hi; subst hi; exact hentry a rfl
 
+/-- **Byte machine refines record machine** (`asmcode.c` as written – `fseek` back-patching of the
+length field, overwriting of empty records, the 512-byte `CodeBuffer`, the final overwrite by entry
+and creator record – versus the abstract record list): for every statement list whose single
+statements stay within the per-line limit, the bytes `asl` leaves on disk are exactly the long
+serialisation of the record machine's result.  (`10 ≤ …`: the creator string – "AS x.yy/…" – is long
+enough to cover the empty record header it overwrites; no truncation happens in `CloseFile`.) -/
+theorem C04_refine (c : Ctx) (pc0 : Nat) (evs : List Ev) (entry : Option Nat) (creator : List Byte)
+    (hs : EvsSmall evs)
+    (hlen : 10 ≤ (match entry with | some _ => 5 | none => 0) + 1 + creator.length) :
+    writeCodeFile c pc0 evs entry creator
+      = serFileLong (finishItems (run (init c pc0) evs) entry) creator := by
+  unfold writeCodeFile
+  exact close_rel _ _ entry creator (run_rel evs _ _ (open_rel c pc0) hs) hlen
+
+/-- Corollary: what the documented reader sees in the file written by the byte machine is the cell
+list the statements specify (C04_refine ∘ C04_file_wellformed ∘ C04_cells). -/
+theorem C04_end_to_end (c : Ctx) (pc0 : Nat) (evs : List Ev) (entry : Option Nat) (creator : List Byte)
+    (hwf : EvsWF c evs) (hfit : EvsFit c evs) (hs : EvsSmall evs)
+    (hlen : 10 ≤ (match entry with | some _ => 5 | none => 0) + 1 + creator.length)
+    (hstart : ∀ r ∈ finish (run (init c pc0) evs), r.start < 4294967296)
+    (hentry : ∀ a, entry = some a → a < 4294967296) :
+    ∃ items, parseFile (writeCodeFile c pc0 evs entry creator) = some (items, creator) ∧
+      cellsOf items = specCells c pc0 evs := by
+  refine ⟨finishItems (run (init c pc0) evs) entry, ?_, C04_cells c pc0 evs entry hwf⟩
+  rw [C04_refine c pc0 evs entry creator hs hlen]
+  exact C04_file_wellformed c pc0 evs entry creator hfit hstart hentry
+
 /-! Non-vacuity: a concrete non-trivial statement list meets the hypotheses. -/
 def exCtx : Ctx := ⟨0x11, 1, 1⟩
 def exEvs : List Ev := [.emit [1, 2, 3], .jump exCtx 0x100, .emit [4], .jump ⟨0x70, 1, 2⟩ 0, .emit [5, 6]]
-example : EvsWF exCtx exEvs ∧ EvsFit exCtx exEvs := by
-  simp [EvsWF, EvsFit, exEvs, exCtx]
+example : EvsWF exCtx exEvs ∧ EvsFit exCtx exEvs ∧ EvsSmall exEvs := by
+  simp [EvsWF, EvsFit, EvsSmall, exEvs, exCtx]
 example : (finish (run (init exCtx 0) exEvs)).length = 3 := by decide
 
 end AslModel.C04
